@@ -209,7 +209,7 @@ func resolvePH(p *load.Program, r *kit.Report, rule string, ph *ssa.Function) *p
 		name string
 		call *ssa.Call
 	}{{"parent-lookup", g.findPrev}, {"duplicate-lookup", g.findHash}} {
-		if !(kit.CallID(lk.call) == H+".Branches.Find" && len(lk.call.Call.Args) > 0 && loadOfField(lk.call.Call.Args[0], branchesF)) {
+		if !(kit.CallID(lk.call) == H+".Branches.Find" && len(lk.call.Call.Args) > 0 && recvIsField(lk.call.Call.Args[0], branchesF)) {
 			r.Bad(rule, "ProcessHeader/"+lk.name+"-scope", posOf(p, lk.call),
 				"lookup is %s and does not search every branch in repo.branches: headers held by other branches are missed (a known header is treated as new / a known parent as unknown)", kit.ShortID(kit.CallID(lk.call)))
 			return nil
@@ -389,7 +389,7 @@ func checkDepthGuard(p *load.Program, r *kit.Report, ph *ssa.Function, g *phGuar
 	d := lin.Of(fs[0].depth)
 	var lh kit.Lin
 	for _, c := range kit.CallsTo(ph, H+".Branch.Height") {
-		if call, ok := c.(*ssa.Call); ok && kit.DependsOn(call.Call.Args[0], func(v ssa.Value) bool { return loadOfField(v, longest) }) {
+		if call, ok := c.(*ssa.Call); ok && recvIsField(call.Call.Args[0], longest) {
 			lh = lin.Of(call)
 		}
 	}
